@@ -442,6 +442,12 @@ static void run_history(char **lines, int n)
             if (r != FAIL) parse_name(nm, 'd', &p, &i);
             printf("U 11 %lld", id); ans((100LL * (p + 1) + i) * 100, r != FAIL);
         }
+        else if (!strcmp(op, "sdreset")) {     /* no handle argument: reorganises the table every SD id indexes */
+            intn cur = 0, lim = 0;
+            SDget_maxopenfiles(&cur, &lim);
+            int r = SDreset_maxopenfiles(atoi(b));
+            printf("Z %d %d %d\n", atoi(b), r, (int)lim);
+        }
         else if (!strcmp(op, "hpend")) { HPend(); printf("-\n"); }
         else printf("- unknown op %s\n", op);
         fflush(stdout);
